@@ -1,6 +1,7 @@
 (* Proofs/C18Diff.v (C18) — facts about Model/DiffHumans.v, the end-to-end model of DateTime.diff(other) / diff_for_humans(other):
-   the three listed findings as machine-checked witnesses (evaluated on the model that the correspondence run compares with both
-   backends), the regions on which direction and operands are right, and totality of the phrase. *)
+   the two listed findings as machine-checked witnesses (evaluated on the model that the correspondence run compares with both
+   backends), the region on which the direction is right, the operands handed to precise_diff (the values themselves, whichever
+   occurrence of a repeated wall time they are — finding interval-init-drops-fold is repaired), and totality of the phrase. *)
 From Coq Require Import ZArith List Bool String Lia ZifyBool.
 From PV Require Import Lib.PyBase Spec.Cal Model.PdBase Gen.PreciseDiff Model.RustPreciseDiff Model.PdInterval.
 From PV Require Import Proofs.CalFacts Proofs.C06Facts Proofs.C06Spec Proofs.C06Rebuild Proofs.C06Thms.
@@ -9,7 +10,7 @@ Import ListNotations.
 Open Scope Z_scope.
 
 (* zone name / tzinfo object ids of the witnesses: 1 Europe/Paris, 2 UTC, 3 America/New_York *)
-(* 2012-10-28: 00:30Z, and one hour later the SECOND 02:30 in Paris (+01:00; read with fold 0 it is +02:00) *)
+(* 2012-10-28: 00:30Z, and one hour later the SECOND 02:30 in Paris (+01:00; the first 02:30 is +02:00) *)
 Definition w_utc_0030 := mkpdt 2012 10 28 0 30 0 0 0 true 2 2 true.
 Definition w_paris_0230_second := mkpdt 2012 10 28 2 30 0 0 3600 true 1 1 true.
 (* 02:45 first occurrence (+02:00) and, 30 minutes later, 02:15 second occurrence (+01:00), same tzinfo object *)
@@ -19,55 +20,56 @@ Definition w_paris_0215_second := mkpdt 2012 10 28 2 15 0 0 3600 true 1 1 true.
 Definition w_paris_1968 := mkpdt 1968 5 1 1 1 0 0 3600 true 1 1 true.
 Definition w_ny_1968 := mkpdt 1968 4 30 20 1 1 0 (-14400) true 3 3 true.
 
-(* ---- finding interval-init-drops-fold: one hour elapsed, every component 0 ("a few seconds before"), both backends *)
+(* ---- the former witness of finding interval-init-drops-fold (repaired): one hour elapsed up to the SECOND 02:30 — the components
+   are 1 hour with both backends (they were all 0, "a few seconds before", when Interval.__init__ rebuilt its natives without fold=:
+   the second occurrence was read as the first, i.e. with offset +02:00, which the last line re-computes) *)
+Definition w_paris_0230_first := mkpdt 2012 10 28 2 30 0 0 7200 true 1 1 true.
 Lemma second_occurrence_witness :
   let a := w_utc_0030 in let b := w_paris_0230_second in
   p_instant b - p_instant a = 3600 * 1000000 /\
-  diff_comps false a b 0 7200 = Ok (mkcomp 0 0 0 0 0 0 0, false) /\
-  diff_comps true a b 0 7200 = Ok (mkcomp 0 0 0 0 0 0 0, false) /\
-  diff_comps false a b 0 3600 = Ok (mkcomp 0 0 0 0 1 0 0, false).     (* had fold been passed *)
+  diff_comps false a b = Ok (mkcomp 0 0 0 0 1 0 0, false) /\
+  diff_comps true a b = Ok (mkcomp 0 0 0 0 1 0 0, false) /\
+  diff_comps false b a = Ok (mkcomp 0 0 0 0 1 0 0, true) /\
+  diff_comps true b a = Ok (mkcomp 0 0 0 0 1 0 0, true) /\
+  diff_comps false a w_paris_0230_first = Ok (mkcomp 0 0 0 0 0 0 0, false).     (* the first occurrence IS the instant of a *)
 Proof. vm_compute. repeat split; reflexivity. Qed.
 
-Lemma diff_second_occurrence_refuted_lemma : exists a b oa ob,
-  p_instant b - p_instant a = 3600 * 1000000 /\
-  diff_comps false a b oa ob = Ok (mkcomp 0 0 0 0 0 0 0, false) /\ diff_comps true a b oa ob = Ok (mkcomp 0 0 0 0 0 0 0, false).
-Proof. exists w_utc_0030, w_paris_0230_second, 0, 7200. pose proof second_occurrence_witness as H. cbv zeta in H. tauto. Qed.
-
-(* ---- finding same-tzinfo-wall-order: the reference is 30 minutes LATER, invert (= "the instance is later") is true *)
-Lemma diff_wall_order_refuted_lemma : exists a b oa ob c,
-  p_instant b - p_instant a = 1800 * 1000000 /\ diff_comps false a b oa ob = Ok (c, true) /\ diff_comps true a b oa ob = Ok (c, true).
+(* ---- finding same-tzinfo-wall-order: the reference is 30 minutes LATER, invert (= "the instance is later") is true; precise_diff is
+   handed the two instants in the wrong order (its own `d1 > d2` is the same wall-clock comparison) and its components are not those of
+   30 minutes with either backend *)
+Lemma diff_wall_order_refuted_lemma : exists a b c1 c2,
+  p_instant b - p_instant a = 1800 * 1000000 /\ diff_comps false a b = Ok (c1, true) /\ diff_comps true a b = Ok (c2, true) /\
+  c1 <> mkcomp 0 0 0 0 0 30 0 /\ c2 <> mkcomp 0 0 0 0 0 30 0.
 Proof.
-  exists w_paris_0245_first, w_paris_0215_second, 7200, 7200, (mkcomp 0 0 0 0 0 30 0). vm_compute. repeat split; reflexivity.
+  exists w_paris_0245_first, w_paris_0215_second, (mkcomp (-1) 11 4 1 23 30 0), (mkcomp 0 0 0 0 0 (-30) 0).
+  vm_compute. repeat split; try reflexivity; discriminate.
 Qed.
 
 (* ---- finding rs-cross-zone-shift: one second elapsed; pure Python: 1 second; compiled: 1 hour -59 minutes 1 second *)
 Lemma diff_rs_cross_zone_refuted_lemma : exists a b,
   p_instant b - p_instant a = 1000000 /\
-  diff_comps false a b (p_offset a) (p_offset b) = Ok (mkcomp 0 0 0 0 0 0 1, false) /\
-  diff_comps true a b (p_offset a) (p_offset b) = Ok (mkcomp 0 0 0 0 1 (-59) 1, false).
+  diff_comps false a b = Ok (mkcomp 0 0 0 0 0 0 1, false) /\
+  diff_comps true a b = Ok (mkcomp 0 0 0 0 1 (-59) 1, false).
 Proof. exists w_paris_1968, w_ny_1968. vm_compute. repeat split; reflexivity. Qed.
 
-(* ---- where the operands handed to precise_diff ARE the operands: neither is a second occurrence *)
-Lemma refolded_same d : refolded d (p_offset d) = d.
-Proof. destruct d; reflexivity. Qed.
-
-Lemma diff_sees_operands_partial_lemma rs a b :
-  diff_comps rs a b (p_offset a) (p_offset b) =
+(* ---- the operands handed to precise_diff ARE the operands (with the offsets their folds select), for every pair *)
+Lemma diff_sees_operands_lemma rs a b :
+  diff_comps rs a b =
   (let inv := p_gtb a b in let s := if inv then b else a in let e := if inv then a else b in
    bind (pd_backend rs s e) (fun d =>
    let c := iv_components d (iv_elapsed s e) in
    Ok (mkcomp (iv_years c) (iv_months c) (iv_weeks c) (iv_remaining_days c) (iv_hours c) (iv_minutes c) (iv_remaining_seconds c), inv))).
-Proof. unfold diff_comps. rewrite !refolded_same. reflexivity. Qed.
+Proof. reflexivity. Qed.
 
 (* ---- direction: invert <-> the instance is the later INSTANT, for aware operands with different tzinfo objects or equal offsets *)
-Lemma diff_invert_is_gtb rs a b oa ob c inv : diff_comps rs a b oa ob = Ok (c, inv) -> inv = p_gtb a b.
+Lemma diff_invert_is_gtb rs a b c inv : diff_comps rs a b = Ok (c, inv) -> inv = p_gtb a b.
 Proof.
   unfold diff_comps. cbv zeta. destruct (pd_backend rs _ _); cbn [bind]; intro H; inversion H. reflexivity.
 Qed.
 
-Lemma direction_follows_instants_partial_lemma rs a b oa ob c inv :
+Lemma direction_follows_instants_partial_lemma rs a b c inv :
   p_aware a = true -> p_aware b = true -> (p_tzobj a <> p_tzobj b \/ p_offset a = p_offset b) ->
-  diff_comps rs a b oa ob = Ok (c, inv) -> (inv = true <-> p_instant b < p_instant a).
+  diff_comps rs a b = Ok (c, inv) -> (inv = true <-> p_instant b < p_instant a).
 Proof.
   intros Ha Hb Hreg H. apply diff_invert_is_gtb in H. subst inv.
   unfold p_gtb, p_key. rewrite Ha, Hb.
@@ -86,19 +88,19 @@ Example direction_hypotheses_satisfiable :
 Proof. repeat split; try reflexivity. vm_compute. discriminate. Qed.
 
 (* ---- the phrase: total whenever the difference exists (it always does with the compiled helper) *)
-Lemma diff_for_humans_total_lemma L rs a b oa ob absolute ci : In L all_locales ->
-  diff_comps rs a b oa ob = Ok ci ->
-  exists s, diff_for_humans L rs a b oa ob absolute = Ok s /\ s <> [] /\ brace_free s.
+Lemma diff_for_humans_total_lemma L rs a b absolute ci : In L all_locales ->
+  diff_comps rs a b = Ok ci ->
+  exists s, diff_for_humans L rs a b absolute = Ok s /\ s <> [] /\ brace_free s.
 Proof.
   intros HL H. unfold diff_for_humans. rewrite H. cbn [bind]. apply format_total_lemma. exact HL.
 Qed.
 
-Lemma diff_comps_rs_total a b oa ob : exists ci, diff_comps true a b oa ob = Ok ci.
+Lemma diff_comps_rs_total a b : exists ci, diff_comps true a b = Ok ci.
 Proof. unfold diff_comps, pd_backend. cbv zeta. cbn [bind]. eexists. reflexivity. Qed.
 
-Lemma diff_for_humans_rs_total_lemma L a b oa ob absolute : In L all_locales ->
-  exists s, diff_for_humans L true a b oa ob absolute = Ok s /\ s <> [] /\ brace_free s.
-Proof. intro HL. destruct (diff_comps_rs_total a b oa ob) as [ci H]. eapply diff_for_humans_total_lemma; eauto. Qed.
+Lemma diff_for_humans_rs_total_lemma L a b absolute : In L all_locales ->
+  exists s, diff_for_humans L true a b absolute = Ok s /\ s <> [] /\ brace_free s.
+Proof. intro HL. destruct (diff_comps_rs_total a b) as [ci H]. eapply diff_for_humans_total_lemma; eauto. Qed.
 
 (* ------------------------------------------------------------------------------------------------------------------------------
    magnitude, proved: two datetimes with zero offset (UTC, or both naive) less than a day apart.  From the characterisation of the
@@ -162,11 +164,8 @@ Qed.
 
 Ltac Zify.zify_post_hook ::= Z.to_euclidean_division_equations.
 
-Lemma refolded_zero d : p_offset d = 0 -> refolded d 0 = d.
-Proof. intro H. destruct d; cbn in *. subst. reflexivity. Qed.
-
 Lemma subday_utc a b : dt_pair a b -> 0 < p_wall b - p_wall a < us_per_day ->
-  exists c, diff_comps false a b 0 0 = Ok (c, false) /\ sub_month_ranges c /\
+  exists c, diff_comps false a b = Ok (c, false) /\ sub_month_ranges c /\
             c_weeks c = 0 /\ c_rdays c = 0 /\ total_seconds c = (p_wall b - p_wall a) / 1000000.
 Proof.
   intros P He. pose proof P as (Wa & Wb & Da & Db & Htz).
@@ -177,7 +176,7 @@ Proof.
   unfold pd_spec in S. cbv zeta in S. destruct S as (Rh & Rm & Rs & Ru & _).
   assert (G : p_gtb a b = false).
   { unfold p_gtb. rewrite (key_dt a b a Oa Ob Da (or_introl eq_refl)), (key_dt a b b Oa Ob Db (or_intror eq_refl)). lia. }
-  unfold diff_comps. rewrite G. cbv zeta. cbv iota. rewrite (refolded_zero a Oa), (refolded_zero b Ob).
+  unfold diff_comps. rewrite G. cbv zeta. cbv iota.
   unfold pd_backend. rewrite E. cbn [bind].
   assert (El : iv_elapsed a b = p_wall b - p_wall a).
   { unfold iv_elapsed, p_instant. rewrite Da, Oa, Ob. destruct (p_aware a); lia. }
@@ -200,7 +199,7 @@ Proof.
 Qed.
 
 Lemma within_one_unit_true_elapsed_lemma a b : dt_pair a b -> 0 < p_wall b - p_wall a < us_per_day ->
-  exists c, diff_comps false a b 0 0 = Ok (c, false) /\
+  exists c, diff_comps false a b = Ok (c, false) /\
     match gen_pick c with
     | Some (u, n) => Z.abs (n * unit_seconds u - (p_wall b - p_wall a) / 1000000) < unit_seconds u
     | None => (p_wall b - p_wall a) / 1000000 <= 10
@@ -210,17 +209,17 @@ Proof.
   exists c. split; [exact Hc|]. rewrite <- HT. apply within_one_unit_fixed_lemma. exact R.
 Qed.
 
-Lemma diff_comps_rs_eq_py a b : dt_pair a b -> 1 <= p_year a -> p_wall a < p_wall b -> diff_comps true a b 0 0 = diff_comps false a b 0 0.
+Lemma diff_comps_rs_eq_py a b : dt_pair a b -> 1 <= p_year a -> p_wall a < p_wall b -> diff_comps true a b = diff_comps false a b.
 Proof.
   intros P Hy Hlt. pose proof P as (Wa & Wb & Da & Db & _). pose proof Wa as (_ & _ & Oa). pose proof Wb as (_ & _ & Ob).
   assert (G : p_gtb a b = false).
   { unfold p_gtb. rewrite (key_dt a b a Oa Ob Da (or_introl eq_refl)), (key_dt a b b Oa Ob Db (or_intror eq_refl)). lia. }
-  unfold diff_comps. rewrite G. cbv zeta. cbv iota. rewrite (refolded_zero a Oa), (refolded_zero b Ob).
+  unfold diff_comps. rewrite G. cbv zeta. cbv iota.
   unfold pd_backend. rewrite (rs_eq_py a b P Hy Hlt). reflexivity.
 Qed.
 
 Lemma within_one_unit_true_elapsed_rs_lemma a b : dt_pair a b -> 1 <= p_year a -> 0 < p_wall b - p_wall a < us_per_day ->
-  exists c, diff_comps true a b 0 0 = Ok (c, false) /\
+  exists c, diff_comps true a b = Ok (c, false) /\
     match gen_pick c with
     | Some (u, n) => Z.abs (n * unit_seconds u - (p_wall b - p_wall a) / 1000000) < unit_seconds u
     | None => (p_wall b - p_wall a) / 1000000 <= 10
@@ -233,7 +232,7 @@ Qed.
 Example subday_hypotheses_satisfiable :
   let a := mkpdt 2021 1 31 23 0 0 0 0 true 2 2 true in let b := mkpdt 2021 2 1 1 0 0 0 0 true 2 2 true in
   dt_pair a b /\ 1 <= p_year a /\ 0 < p_wall b - p_wall a < us_per_day /\
-  diff_comps false a b 0 0 = Ok (mkcomp 0 0 0 0 2 0 0, false) /\ diff_comps true a b 0 0 = Ok (mkcomp 0 0 0 0 2 0 0, false).
+  diff_comps false a b = Ok (mkcomp 0 0 0 0 2 0 0, false) /\ diff_comps true a b = Ok (mkcomp 0 0 0 0 2 0 0, false).
 Proof.
   cbv zeta. repeat split; try reflexivity; try (vm_compute; congruence); try (vm_compute; reflexivity).
 Qed.
